@@ -2743,7 +2743,7 @@ primary_expression
           {
             case OBJECT_TYPE_INTEGER:
               $$.type = EXPRESSION_TYPE_INTEGER;
-              $$.value.integer = $1.value.object->value.i;
+              $$.value.integer = YR_UNDEFINED;  // not a compile-time constant
               break;
             case OBJECT_TYPE_FLOAT:
               $$.type = EXPRESSION_TYPE_FLOAT;
